@@ -43,6 +43,9 @@ struct SinkInner {
     log: Mutex<Vec<Rec>>,
     /// when set, every write is still recorded but reports an I/O error to its caller
     fail: std::sync::atomic::AtomicBool,
+    /// when non-zero, `write` takes at most this many bytes per call (a pipe / socket / stderr
+    /// like sink) while `write_all` still takes the whole buffer in one call
+    short: std::sync::atomic::AtomicUsize,
 }
 #[derive(Clone)]
 struct RecSink(Arc<SinkInner>);
@@ -57,7 +60,11 @@ fn set_opctx(th: u64, op: u64) {
 
 impl RecSink {
     fn new(id: usize) -> Self {
-        RecSink(Arc::new(SinkInner { id, log: Mutex::new(Vec::new()), fail: std::sync::atomic::AtomicBool::new(false) }))
+        RecSink(Arc::new(SinkInner { id, log: Mutex::new(Vec::new()), fail: std::sync::atomic::AtomicBool::new(false), short: std::sync::atomic::AtomicUsize::new(0) }))
+    }
+    #[allow(dead_code)]
+    fn set_short(&self, n: usize) {
+        self.0.short.store(n, Ordering::SeqCst);
     }
     #[allow(dead_code)]
     fn set_fail(&self, on: bool) {
@@ -78,14 +85,25 @@ struct RecWriter {
     w: u64,
 }
 impl io::Write for RecWriter {
-    // only `write` and `flush` are implemented: write_all / write_fmt / write_vectored use
-    // the std defaults, which end up here, so every individual write call is seen.
+    // `write`, `write_all` and `flush` are implemented: write_fmt / write_vectored use the std
+    // defaults, which end up in `write` / `write_all`, so every individual write call is seen.
     fn write(&mut self, buf: &[u8]) -> io::Result<usize> {
+        let short = self.sink.0.short.load(Ordering::SeqCst);
+        let n = if short > 0 { buf.len().min(short) } else { buf.len() };
+        self.sink.push(self.w, RecKind::Write(buf[..n].to_vec()));
+        if self.sink.0.fail.load(Ordering::SeqCst) {
+            return Err(io::Error::new(io::ErrorKind::BrokenPipe, "recording sink set to fail"));
+        }
+        Ok(n)
+    }
+    // (only in short-write mode does this differ from the std default, which would end up in
+    // `write` with the whole buffer anyway)
+    fn write_all(&mut self, buf: &[u8]) -> io::Result<()> {
         self.sink.push(self.w, RecKind::Write(buf.to_vec()));
         if self.sink.0.fail.load(Ordering::SeqCst) {
             return Err(io::Error::new(io::ErrorKind::BrokenPipe, "recording sink set to fail"));
         }
-        Ok(buf.len())
+        Ok(())
     }
     fn flush(&mut self) -> io::Result<()> {
         self.sink.push(self.w, RecKind::Flush);
